@@ -7,7 +7,8 @@ from vlib.harness import Violation
 
 PID = "C25"
 RULE = ("histories of 3..20 client calls (thorough ..50) by one account (one shared ExecutionContext, as PyTezosClient does) against "
-        "a simulated node whose account counter and mempool evolve: build a group of 1..3 transfers, fill() / autofill() it one or "
+        "a simulated node whose account counter and mempool evolve: build a group of 1..3 transfers (fields left to the client spelled '0' or ''), "
+        "or a contract call built from a contract interface pinned to a past block, fill() / autofill() it one or "
         "more times (the simulation may fail), fill()/autofill() the already filled group again, sign, inject (the node may "
         "refuse), send() (= autofill+sign+inject), a fill()/autofill() that raises on the client side (a content that cannot be forged), bake (pending operations are applied: counter advances, mempool empties), "
         "another account injects. Discipline: one group at a time (a group is injected or dropped after a refused injection "
@@ -22,8 +23,15 @@ OTHER = "tz1VSUr8wwNhLAzempoch5d6hLRiTh8Cjcjb"
 SECRET = bytes(range(1, 33))
 
 
-def _transfer(i):
-    return {"kind": "transaction", "source": "", "fee": "0", "counter": "0", "gas_limit": "0", "storage_limit": "0",
+KT = "KT1BEqzn5Wx8uJrZNvuS9DVHmLvG9td3fDLi"
+SCRIPT = {"code": [{"prim": "parameter", "args": [{"prim": "nat"}]}, {"prim": "storage", "args": [{"prim": "nat"}]},
+                   {"prim": "code", "args": [[{"prim": "CAR"}, {"prim": "NIL", "args": [{"prim": "operation"}]}, {"prim": "PAIR"}]]}],
+          "storage": {"int": "0"}}
+
+
+def _transfer(i, blank="0"):
+    """hand-written content: fields left to the client are spelled '0' (as the builders do) or '' """
+    return {"kind": "transaction", "source": "", "fee": "0", "counter": blank, "gas_limit": "0", "storage_limit": "0",
             "amount": str(1 + i), "destination": DEST}
 
 
@@ -37,6 +45,9 @@ class World:
         self.node.counters[self.pkh] = case["start_counter"]
         self.node.run_operation_handler = self.simulate
         self.node.inject_handler = self.on_inject
+        self.node.scripts[KT] = SCRIPT
+        self.level0 = self.node.level
+        self.node.history[self.node.level] = dict(self.node.counters)
         self.ctx = ExecutionContext(key=self.key, shell=fake_node.shell(self.node))
         self.sim_ok = True
         self.accept = True
@@ -101,7 +112,17 @@ class World:
         if op == "build":
             if self.g0 is not None:
                 return "skip"
-            self.g0 = OperationGroup(context=self.ctx, contents=[_transfer(i) for i in range(s["k"])])
+            if s.get("via") == "contract":
+                # a call built from a contract interface that inspects the contract at a past block (`.using(block_id=...)`)
+                from pytezos.contract.interface import ContractInterface
+                from pytezos.context.impl import ExecutionContext
+                ci = ContractInterface.from_context(ExecutionContext(key=self.key, shell=self.ctx.shell, address=KT, script=SCRIPT))
+                pinned = ci.using(block_id=max(self.level0, self.node.level - s.get("back", 0)))
+                self.g0 = pinned.default(s["k"]).as_transaction()
+                self.g0 = OperationGroup(context=self.ctx, contents=self.g0.contents) if s.get("rebind") else self.g0
+                self.flags.add("built-from-pinned-contract")
+            else:
+                self.g0 = OperationGroup(context=self.ctx, contents=[_transfer(i, s.get("blank", "0")) for i in range(s["k"])])
             self.gf = self.gs = None
             self.fills_of_current = 0
             return "ok"
@@ -182,6 +203,7 @@ class World:
                     self.node.counters[src] = self.node.counters.get(src, 0) + 1
             self.node.mempool = []
             self.node.level += 1
+            self.node.history[self.node.level] = dict(self.node.counters)
             return "ok"
         if op == "other":
             self.node.mempool.append({"hash": "x", "branch": self.node.head_hash, "contents": [
@@ -232,7 +254,9 @@ def histories(draw, max_steps):
             steps.append({"op": draw(st.sampled_from(["bake", "other", "other", "bake", "sign", "inject", "fill", "broken_fill"]))})
             if steps[-1]["op"] == "broken_fill":
                 steps[-1]["how"] = draw(st.sampled_from(["fill", "autofill"]))
-        steps.append({"op": "build", "k": draw(st.integers(1, 3))})
+        steps.append({"op": "build", "k": draw(st.integers(1, 3)), "blank": draw(st.sampled_from(["0", "0", ""]))})
+        if draw(st.integers(0, 3)) == 0:
+            steps[-1].update(via="contract", back=draw(st.integers(0, 3)))
         if draw(st.integers(0, 4)) == 0:
             steps.append({"op": "send", "accept": draw(st.integers(0, 4)) != 0, "drop": True})
             continue
